@@ -539,3 +539,5 @@ M("C22", "PCHIP interval lookup without right=True", "kill",
   [(PT, "        i = torch.searchsorted(self.x, xq, right=True) - 1\n", "        i = torch.searchsorted(self.x, xq) - 1\n")], "PCHIP-eval")
 M("C22", "twin: expanded cubic", "twin",
   [(PT, "        return p0 + t * (p1 + t * (p2 + t * p3))", "        return p0 + p1 * t + p2 * t * t + p3 * t * t * t")])
+M("C02", "user initial state multiplied by its norm", "kill",
+  [(IMPL, "        initial_state *= 1 / initial_state.norm()", "        initial_state *= 1 * initial_state.norm()")], "ROLE-mps")
